@@ -90,6 +90,15 @@ class FakeSock:
             raise OSError(errno.EINVAL, "Invalid argument")
 
     def recvfrom(self, n):
+        if self.to is not None and self.to <= 0:
+            # settimeout(0) is non-blocking mode: a real socket raises BlockingIOError when nothing is queued, not
+            # socket.timeout (the transfer code never asks for it; a change that does must show)
+            if self.script and self.script[0][0] / TICK <= self.clock[0]:
+                t, addr, data = self.script.pop(0)
+                self.clock[0] = max(self.clock[0], t / TICK) + self.proc / TICK
+                self.log.append(("recv", t, addr, bytes(data)))
+                return bytes(data)[:n], addr
+            raise BlockingIOError(errno.EAGAIN, "Resource temporarily unavailable")
         if self.script:
             t, addr, data = self.script[0]
             if t / TICK < self.clock[0] + self.to:
